@@ -40,6 +40,18 @@ CHECKS = {
  "C19": ("queue", "exploration", "lock-step reference model (FIFO with removal by id) over seeded call sequences on OrderQueue; stale-ticket model only to classify K2",
          "Every pop / find / remove / len / is_empty / to_vec of random call sequences is compared with a reference FIFO; constructors (from_vec, From<Vec>, FromStr of Display, serde) are checked for content and list order; a disagreeing pop is tolerated only with the exact K2 signature, never in sequences that do not re-push a removed id.",
          "An id is never pushed while it is queued (as the statement quantifies).", "4/C19"),
+ "C09": ("tamper", "fault_enumeration", "fault injection into serialized snapshot packages with an 'error or identical content' oracle",
+         "For each package content: every single-character deletion / substitution / insertion over a 110-symbol alphabet at every offset, every truncation point, structural edits with the old checksum (scalar +-1, enum flips, order swap / drop / duplicate / retype / append, version, every checksum nibble, dropped members), a re-checksummed package under an unsupported version, and sampled fault pairs; a restore may only succeed with exactly the original content.",
+         "Contents are generated (all order types, both id formats, boundary values, history-reached levels); multi-fault combinations beyond pairs are not enumerated.", "4/C09"),
+ "C16": ("codec", "exploration", "round-trip monitor over boundary grids (enumerated) and seeded random values of every text codec type",
+         "parse(to_string(v)) == v for every generated value of the 13 text codec types; boundary grids (64-bit edges, all variants, both id formats, empty / multi-element lists) are enumerated, the rest sampled.",
+         "Equality via the Debug form of all fields; levels / queues by content; snapshot text by price + aggregates (as the statement says).", "4/C16"),
+ "C17": ("codec", "exploration", "round-trip monitor over boundary grids and seeded random values of every serde-enabled type, plus alias decoding and package re-validation",
+         "from_str(to_string(v)) == v for every serde-enabled type incl. integers above 2^53 and externally tagged GTD; every accepted alias decodes to the same value; a snapshot package still validates after the trip.",
+         "As C16.", "4/C17"),
+ "C18": ("codec", "exploration", "mutation-based fault injection into valid encodings + hostile dictionary, every parse under catch_unwind with a hang watchdog",
+         "All single character-level faults (incl. multi-byte symbols) and segment-level faults of ~100 (quick) valid encodings per run are fed to the matching FromStr / serde entry point, a hostile dictionary and all valid encodings to all 32 entry points; a panic or a hang (10 s in-process, confirmed 60 s alone in a subprocess) is a violation.",
+         "Inputs not derived from a valid encoding or the dictionary are not explored by this tier (thorough adds libFuzzer).", "4/C18"),
 }
 
 NOT_YET = {}
